@@ -8,11 +8,14 @@ the radiance handed to LineShapeModel.add_line, the spectrum samples.
 """
 import ast
 import math
+import random
+
+import numpy as np
 import os
 import re
 from fractions import Fraction
 
-from raysect.core import Point3D, Vector3D
+from raysect.core import Point3D, Vector3D, AffineMatrix3D
 from raysect.optical import Spectrum, Ray, World
 
 from cherab.core import Plasma, Species
@@ -47,19 +50,33 @@ def base(salt, kind, a, b, c, d, e):
     return (1 + (salt + 7 * kind + 13 * a + 31 * b + 3 * c + 17 * d + 5 * e) % 64) / 64
 
 
+def as_form(v, form):
+    """the same number handed over as another valid Python/NumPy scalar type (only when the value is unchanged)"""
+    if form == "int" and float(v).is_integer() and abs(v) < 2.0 ** 53 and not (v == 0 and math.copysign(1, v) < 0):
+        return int(v)
+    if form == "np64":
+        return np.float64(v)
+    if form == "np32":
+        with np.errstate(over="ignore"):
+            v32 = np.float32(v)
+        if float(v32) == v:
+            return v32
+    return v
+
+
 class Dist(DistributionFunction):
     """a spatially varying profile: table[k] = (density, temperature) at the point x = k"""
-    def __init__(self, table, tag=None, log=None):
+    def __init__(self, table, tag=None, log=None, form="float"):
         super().__init__()
-        self.table, self.tag, self.log = table, tag, log
+        self.table, self.tag, self.log, self.form = table, tag, log, form
 
     def density(self, x, y, z):
-        return self.table[int(round(x))][0]
+        return as_form(self.table[int(round(x))][0], self.form)
 
     def effective_temperature(self, x, y, z):
         if self.log is not None and self.tag is not None:
             self.log["tsamp"].append(list(self.tag))      # which ion species had its temperature sampled
-        return self.table[int(round(x))][1]
+        return as_form(self.table[int(round(x))][1], self.form)
 
     def bulk_velocity(self, x, y, z):
         return Vector3D(0, 0, 0)
@@ -73,7 +90,7 @@ def _mk_rate2(cls):
         def evaluate(self, ne, te):
             self.log["evals"].append(self.tag + [ne, te])
             g = self.cfg
-            return g["sgn"] * self.b * (1 + g["cn"] * ne + g["ct"] * te)
+            return as_form(g["sgn"] * self.b * (1 + g["cn"] * ne + g["ct"] * te), g.get("rate_form", "float"))
     return R
 
 
@@ -146,8 +163,9 @@ class StubData(AtomicData):
 
 def make_shape(log):
     class RecordingShape(LineShapeModel):
-        def __init__(self, line, wavelength, target_species, plasma, atomic_data):
+        def __init__(self, line, wavelength, target_species, plasma, atomic_data, *args, **kwargs):
             super().__init__(line, wavelength, target_species, plasma, atomic_data)
+            log["shape_args"][:] = [list(args), sorted(kwargs.items())]
             self._tgt = [eid(target_species.element), target_species.charge]
             log["target"][:] = self._tgt
 
@@ -167,7 +185,7 @@ def point(k):
 
 
 def new_log():
-    return {"calls": [], "evals": [], "target": [], "shape_target": [], "radiance": [], "gaunt": [], "tsamp": []}
+    return {"calls": [], "evals": [], "target": [], "shape_target": [], "radiance": [], "gaunt": [], "tsamp": [], "shape_args": []}
 
 
 def reset_log(log):
@@ -175,18 +193,29 @@ def reset_log(log):
         del v[:]
 
 
+FORMS = ["float", "float", "int", "np64", "np32"]
+
+
 class SeqPlasma:
     """One Plasma for a sequence of evaluation points (steps).  Step k is the point x = k; every species has a
     profile over the points.  The composition is re-set (with change notification) only where the list of
-    (element, charge) keys differs from the previous step's."""
+    (element, charge) keys (or the duplicate-entry marker) differs from the previous step's.
+    step['dup'] = (q, n, t): the species list handed to Composition.set carries a second entry for the key of comp[q]
+    at position q (density n, temperature t) and the real entry at the end: Composition keeps the position of the
+    first and the value of the last, so the effective composition is comp."""
     def __init__(self, steps, log=None):
         self.steps, self.log, self.keys = steps, log, None
+        self.frng = random.Random(steps[0].get("form_seed", 0))
         self.pl = Plasma()
-        self.pl.electron_distribution = Dist({k: (s["ne"], s["te"]) for k, s in enumerate(steps)})
+        self.set_electrons()
+
+    def set_electrons(self):
+        self.pl.electron_distribution = Dist({k: (s["ne"], s["te"]) for k, s in enumerate(self.steps)},
+                                             form=self.frng.choice(FORMS))
 
     @staticmethod
     def keys_of(step):
-        return [(e, c) for (e, c, _, _) in step["comp"]]
+        return [(e, c) for (e, c, _, _) in step["comp"]] + [("dup", step.get("dup"))]
 
     def goto(self, k):
         """returns True when the composition was (re)set for this step"""
@@ -197,34 +226,111 @@ class SeqPlasma:
         while j < len(self.steps) and self.keys_of(self.steps[j]) == keys:
             j += 1
         species = []
-        for i, (e, c) in enumerate(keys):
+        for i, (e, c) in enumerate(keys[:-1]):
             table = {m: (self.steps[m]["comp"][i][2], self.steps[m]["comp"][i][3]) for m in range(k, j)}
-            species.append(Species(ELEMS[e], c, Dist(table, (e, c), self.log)))
+            species.append(Species(ELEMS[e], c, Dist(table, (e, c), self.log, self.frng.choice(FORMS))))
+        dup = self.steps[k].get("dup")
+        if dup and species:
+            q, dn, dt = dup
+            q = min(q, len(species) - 1)
+            real = species[q]
+            species[q] = Species(real.element, real.charge, Dist({m: (dn, dt) for m in range(k, j)}, None, None))
+            species.append(real)
         self.pl.composition.set(species)
         self.keys = keys
         return True
 
 
+class Instance:
+    """one emission model attached to one plasma, by the constructor ('ctor') or through plasma.models ('manager');
+    in the second case emission is observed through the alternative entry point PlasmaMaterial.emission_function"""
+    def __init__(self, sp, ad, route, build):
+        self.sp, self.ad, self.route = sp, ad, route
+        if route == "manager":
+            from raysect.primitive import Sphere
+            self.model = build(None, None)
+            sp.pl.geometry = Sphere(100.0)
+            sp.pl.atomic_data = ad
+            sp.pl.models = [self.model]
+        else:
+            sp.pl.atomic_data = ad
+            self.model = build(sp.pl, ad)
+
+    def emission(self, k, spectrum):
+        if self.route == "manager":
+            mat = self.sp.pl.geometry.material
+            return mat.emission_function(point(k), DIRECTION, spectrum, World(), Ray(), self.sp.pl.geometry,
+                                         AffineMatrix3D(), AffineMatrix3D())
+        return self.model.emission(point(k), DIRECTION, spectrum)
+
+    def apply(self, op, new_ad=None):
+        """a public mutation route between two evaluations; returns True when the model must re-populate its cache"""
+        if op == "ad_new":
+            self.ad = new_ad
+            if self.route == "manager":
+                self.sp.pl.atomic_data = new_ad
+            else:
+                self.model.atomic_data = new_ad
+            return True
+        if op == "ad_same":
+            self.model.atomic_data = self.ad
+            return True
+        if op == "plasma_same":
+            self.model.plasma = self.sp.pl
+            return True
+        if op == "edist":
+            self.sp.set_electrons()
+            return True
+        if op == "models_reset" and self.route == "manager":
+            self.sp.pl.models = [self.model]
+            return True
+        return False
+
+
+def charge_arg(c, form):
+    if form == "np_int":
+        return np.int64(c)
+    if form == "bool" and c in (0, 1):
+        return bool(c)
+    return c
+
+
+def copy_log(log):
+    return {k: [list(x) if isinstance(x, list) else x for x in v] for k, v in log.items()}
+
+
+def step_op(inst, step, k, log, gaunt=None):
+    """apply the mutation recorded for step k (k >= 1); returns True when the cache has to be re-populated"""
+    op = step.get("op", "none") if k else "none"
+    if op == "ad_new":
+        return inst.apply(op, StubData(step["cfg"], log, gaunt=gaunt))
+    return inst.apply(op)
+
+
 def run_line_seq(steps, lineshape=None, window=(400.0, 600.0, 4)):
-    """steps: single-point cases (kind, cfg, line identical; ne, te, comp per point) evaluated in order on ONE model
-    instance attached to ONE plasma.  Returns one observation per step; obs['fresh'] says whether the model had to
-    populate its cache at that step (first step, composition re-set, or the previous populate failed)."""
+    """steps: single-point cases (kind, line identical; cfg, ne, te, comp per point) evaluated in order on ONE model
+    instance attached to ONE plasma, with the public mutation step['op'] applied before the evaluation.  Returns one
+    observation per step; obs['fresh'] says whether the model had to populate its cache at that step (first step,
+    composition re-set, a mutation that notifies the model, or the previous populate failed)."""
     log = new_log()
     first = steps[0]
     e, c, t = first["line"]
     sp = SeqPlasma(steps, log if lineshape is None else None)
-    ad = StubData(first["cfg"], log)
-    sp.pl.atomic_data = ad
-    model = LINE_CLASSES[first["kind"]](Line(ELEMS[e], c, TRANS[t]), plasma=sp.pl, atomic_data=ad,
-                                        lineshape=lineshape or make_shape(log))
+    shape = lineshape or make_shape(log)
+    kw = {}
+    if lineshape is None and first.get("shape_args"):
+        kw = {"lineshape_args": list(first["shape_args"][0]), "lineshape_kwargs": dict(first["shape_args"][1])}
+    line = Line(ELEMS[e], charge_arg(c, first.get("charge_form")), TRANS[t])
+    inst = Instance(sp, StubData(first["cfg"], log), first.get("route", "ctor"),
+                    lambda pl, ad: LINE_CLASSES[first["kind"]](line, plasma=pl, atomic_data=ad, lineshape=shape, **kw))
     out, must_populate = [], True
-    for k in range(len(steps)):
+    for k, step in enumerate(steps):
         changed = sp.goto(k)
-        fresh = changed or must_populate
+        fresh = step_op(inst, step, k, log) or changed or must_populate
         reset_log(log)
         spec = Spectrum(*window)
         try:
-            out_sp = model.emission(point(k), DIRECTION, spec)
+            out_sp = inst.emission(k, spec)
         except RuntimeError:
             out.append(dict(copy_log(log), out="ErrRuntime", samples=[], fresh=fresh))
             must_populate = True
@@ -249,33 +355,29 @@ def run_line_seq(steps, lineshape=None, window=(400.0, 600.0, 4)):
     return out
 
 
-def copy_log(log):
-    return {k: [list(x) if isinstance(x, list) else x for x in v] for k, v in log.items()}
-
-
 def run_line(case, lineshape=None, window=(400.0, 600.0, 4)):
-    return run_line_seq([case], lineshape, window)[0]
+    return run_line_seq([dict(case, op="none")], lineshape, window)[0]
 
 
 def run_total_seq(steps):
-    """steps: cfg, elem, charge, minw, maxw, bins identical; ne, te, comp per point"""
+    """steps: elem, charge identical; cfg, window, ne, te, comp per point"""
     log = new_log()
     first = steps[0]
     sp = SeqPlasma(steps, log)
-    ad = StubData(first["cfg"], log)
-    sp.pl.atomic_data = ad
     try:
-        model = TotalRadiatedPower(ELEMS[first["elem"]], first["charge"], plasma=sp.pl, atomic_data=ad)
+        inst = Instance(sp, StubData(first["cfg"], log), first.get("route", "ctor"),
+                        lambda pl, ad: TotalRadiatedPower(ELEMS[first["elem"]], charge_arg(first["charge"], first.get("charge_form")),
+                                                          plasma=pl, atomic_data=ad))
     except ValueError:
         return [dict(copy_log(log), out="ErrValue", samples=[], fresh=True) for _ in steps]
     out, must_populate = [], True
     for k, case in enumerate(steps):
         changed = sp.goto(k)
-        fresh = changed or must_populate
+        fresh = step_op(inst, case, k, log) or changed or must_populate
         reset_log(log)
         spec = Spectrum(case["minw"], case["maxw"], case["bins"])
         try:
-            out_sp = model.emission(point(k), DIRECTION, spec)
+            out_sp = inst.emission(k, spec)
         except RuntimeError:
             out.append(dict(copy_log(log), out="ErrRuntime", samples=[], fresh=fresh))
             must_populate = True
@@ -284,63 +386,251 @@ def run_total_seq(steps):
         samples = [float(v) for v in out_sp.samples]
         touched = bool(log["evals"]) or any(v != 0.0 for v in samples)
         # an early return and an emission of exactly zero leave the same spectrum: only "Skip or zero" can be observed
-        out.append(dict(copy_log(log), out=("Emit", samples[0]) if touched else "SkipOrZero", samples=samples, fresh=fresh))
+        o = dict(copy_log(log), out=("Emit", samples[0]) if touched else "SkipOrZero", samples=samples, fresh=fresh)
+        o["rebased"] = second_call(inst, k, case)
+        out.append(o)
     return out
 
 
 def run_total(case):
-    return run_total_seq([case])[0]
+    return run_total_seq([dict(case, op="none")])[0]
+
+
+def array_form(vals, form):
+    """the same numbers as another array-like the public API accepts (or documents a rejection for)"""
+    vals = [float(v) for v in vals]
+    if form == "tuple":
+        return tuple(vals)
+    if form == "int" and all(v.is_integer() and abs(v) < 2.0 ** 53 for v in vals):
+        return [int(v) for v in vals]
+    if form == "np_int" and vals and all(v.is_integer() and abs(v) < 2.0 ** 53 for v in vals):
+        return np.array([int(v) for v in vals], dtype=np.int64)
+    if form == "np32":
+        with np.errstate(over="ignore"):
+            a32 = np.array(vals, dtype=np.float32)
+        if all(float(x) == v for x, v in zip(a32, vals)):
+            return a32
+    if form == "np64":
+        return np.array(vals, dtype=np.float64)
+    if form == "readonly":
+        a = np.array(vals, dtype=np.float64)
+        a.flags.writeable = False
+        return a
+    if form == "noncontig" and len(vals) >= 2:
+        a = np.zeros(2 * len(vals))
+        a[::2] = vals
+        return a[::2]
+    return vals
 
 
 def run_bremsfn(case):
-    """case: gaunt=(g0..g3), ne, te, zs=[(z, n)...], wvl"""
+    """case: gaunt=(g0..g3), ne, te, zs=[(z, n)...], wvl, forms=(density form, charge form)"""
     log = new_log()
-    f = BremsFunction(GauntStub(case["gaunt"], log), [n for _, n in case["zs"]], [z for z, _ in case["zs"]],
-                      case["ne"], case["te"])
-    return {"value": float(f(case["wvl"])), "gaunt": log["gaunt"]}
+    fd, fz = case.get("forms", ("list", "list"))
+    dens, chg = array_form([n for _, n in case["zs"]], fd), array_form([z for z, _ in case["zs"]], fz)
+    rejected = [isinstance(a, np.ndarray) and a.dtype == np.float64 and (not a.flags.writeable or not a.flags.c_contiguous)
+                for a in (dens, chg)]
+    try:
+        f = BremsFunction(GauntStub(case["gaunt"], log), dens, chg, as_form(case["ne"], case.get("scalar_form", "float")),
+                          as_form(case["te"], case.get("scalar_form", "float")))
+    except ValueError:
+        return {"value": None, "rejected": True, "expected_rejection": any(rejected), "gaunt": []}
+    return {"value": float(f(case["wvl"])), "rejected": False, "expected_rejection": any(rejected), "gaunt": log["gaunt"]}
+
+
+def second_call(inst, k, case):
+    """the same instance at the same point once more, into a spectrum that already holds case['baseline'] in every bin:
+    returns (baseline, samples) or None"""
+    if case.get("baseline") is None:
+        return None
+    spec = Spectrum(case["minw"], case["maxw"], case["bins"])
+    spec.samples[:] = case["baseline"]
+    out_sp = inst.emission(k, spec)
+    return (case["baseline"], [float(v) for v in out_sp.samples])
+
+
+def make_integrator(tight):
+    return GaussianQuadrature(relative_tolerance=1e-13) if tight else GaussianQuadrature()
 
 
 def run_brems_seq(steps):
-    """steps: gaunt, minw, maxw, bins, tight, via_provider identical; ne, te, comp per point; ONE Bremsstrahlung instance
-    (its BremsFunction caches the charge and density arrays between calls)"""
+    """steps: ne, te, comp, window, gaunt, tight, via_provider per point; ONE Bremsstrahlung instance (its BremsFunction
+    caches the charge and density arrays between calls).  Ops: gaunt_user / gaunt_none (gaunt_factor setter in both
+    directions), integrator (setter), and the generic ones."""
     log = new_log()
     first = steps[0]
     sp = SeqPlasma(steps, None)
-    gs = GauntStub(first["gaunt"], log)
-    ad = StubData({"salt": 0, "sgn": 1.0, "cn": 0.0, "ct": 0.0, "cd": 0.0, "missing": 0}, log, gaunt=gs)
-    sp.pl.atomic_data = ad
+    provider_gaunt = GauntStub(first["gaunt"], log)
+    ad = StubData({"salt": 0, "sgn": 1.0, "cn": 0.0, "ct": 0.0, "cd": 0.0, "missing": 0}, log, gaunt=provider_gaunt)
     kw = {}
-    if first["tight"]:
-        kw["integrator"] = GaussianQuadrature(relative_tolerance=1e-13)
+    if first.get("integrator_by", "ctor") == "ctor":
+        kw["integrator"] = make_integrator(first["tight"])
     if not first["via_provider"]:
-        kw["gaunt_factor"] = gs
-    model = Bremsstrahlung(plasma=sp.pl, atomic_data=ad, **kw)
+        kw["gaunt_factor"] = GauntStub(first["gaunt"], log)
+    inst = Instance(sp, ad, first.get("route", "ctor"), lambda pl, a: Bremsstrahlung(plasma=pl, atomic_data=a, **kw))
+    if "integrator" not in kw:
+        inst.model.integrator = make_integrator(first["tight"])
     out, must_populate = [], True
     for k, case in enumerate(steps):
         changed = sp.goto(k)
-        fresh = changed or must_populate
+        op = case.get("op", "none") if k else "none"
+        muted = False
+        if op == "gaunt_user":
+            inst.model.gaunt_factor = GauntStub(case["gaunt"], log)
+            muted = True
+        elif op == "gaunt_none":
+            provider_gaunt.g = case["gaunt"]
+            inst.model.gaunt_factor = None
+            muted = True
+        elif op == "integrator":
+            inst.model.integrator = make_integrator(case["tight"])
+        else:
+            muted = inst.apply(op)
+        fresh = muted or changed or must_populate
         must_populate = False
         reset_log(log)
         spec = Spectrum(case["minw"], case["maxw"], case["bins"])
-        out_sp = model.emission(point(k), DIRECTION, spec)
-        out.append({"samples": [float(v) for v in out_sp.samples], "gaunt_z": sorted({z for z, _ in log["gaunt"]}),
-                    "gaunt_te": sorted({t for _, t in log["gaunt"]}), "calls": [list(c) for c in log["calls"]], "fresh": fresh})
+        out_sp = inst.emission(k, spec)
+        o = {"samples": [float(v) for v in out_sp.samples], "gaunt_z": sorted({z for z, _ in log["gaunt"]}),
+             "gaunt_te": sorted({t for _, t in log["gaunt"]}), "calls": [list(c) for c in log["calls"]], "fresh": fresh,
+             "gaunt_is_set": inst.model.gaunt_factor is not None}
+        o["rebased"] = second_call(inst, k, case)
+        out.append(o)
     return out
 
 
 def run_brems(case):
-    return run_brems_seq([case])[0]
+    return run_brems_seq([dict(case, op="none")])[0]
 
 
 def run_radfn(case):
     """case: phi, minw, maxw, bins"""
-    rf = RadiationFunction(lambda x, y, z: case["phi"])
+    form = case.get("form", "callable")
+    if form == "number":
+        rf = RadiationFunction(case["phi"])
+    elif form == "constant3d":
+        from cherab.core.math import Constant3D
+        rf = RadiationFunction(Constant3D(case["phi"]))
+    else:
+        rf = RadiationFunction(lambda x, y, z: case["phi"])
     ray = Ray(origin=Point3D(0, 0, 0), direction=DIRECTION, min_wavelength=case["minw"], max_wavelength=case["maxw"],
               bins=case["bins"])
     sp = ray.new_spectrum()
-    from raysect.core import AffineMatrix3D
     out = rf.emission_function(point(0), DIRECTION, sp, World(), ray, None, AffineMatrix3D(), AffineMatrix3D())
-    return {"samples": [float(v) for v in out.samples]}
+    res = {"samples": [float(v) for v in out.samples], "rebased": None}
+    if case.get("baseline") is not None:
+        sp2 = ray.new_spectrum()
+        sp2.samples[:] = case["baseline"]
+        out2 = rf.emission_function(point(0), DIRECTION, sp2, World(), ray, None, AffineMatrix3D(), AffineMatrix3D())
+        res["rebased"] = (case["baseline"], [float(v) for v in out2.samples])
+    return res
+
+
+# ---------------------------------------------------------------------------------------------------
+# the provider's Gaunt factor (cherab/core/atomic/gaunt.pyx)
+# ---------------------------------------------------------------------------------------------------
+_MAXWELLIAN = {}
+
+
+def gaunt_tables(case):
+    if case["table"] == "maxwellian":
+        if not _MAXWELLIAN:
+            from cherab.core.atomic.gaunt import MaxwellianFreeFreeGauntFactor
+            m = MaxwellianFreeFreeGauntFactor()
+            _MAXWELLIAN.update(obj=m, u=np.array(m.raw_data["u"]), g2=np.array(m.raw_data["gamma2"]),
+                               tab=np.array(m.raw_data["gaunt_factor"]))
+        return _MAXWELLIAN["obj"], _MAXWELLIAN["u"], _MAXWELLIAN["g2"], _MAXWELLIAN["tab"]
+    from cherab.core.atomic.gaunt import InterpolatedFreeFreeGauntFactor
+    u, g2, tab = np.array(case["ugrid"]), np.array(case["g2grid"]), np.array(case["values"])
+    return InterpolatedFreeFreeGauntFactor(case["ugrid"], case["g2grid"], case["values"]), u, g2, tab
+
+
+def run_gaunt(case, consts):
+    """case: table ('maxwellian' | custom grids), z, te, wvl, entry ('call' | 'evaluate').  Returns the value, the doubles u
+    and gamma2 recomputed with the operations of gaunt.pyx, log(4/u) and the value of a twin raysect interpolator."""
+    from raysect.core.math.function.float import Interpolator2DArray
+    obj, u, g2, tab = gaunt_tables(case)
+    z, te, wvl = case["z"], case["te"], case["wvl"]
+    ph = consts["PLANCK_CONSTANT"] * consts["SPEED_OF_LIGHT"] * 1e9 / consts["ELEMENTARY_CHARGE"]
+    g2_d = z * z * consts["RYDBERG_CONSTANT_EV"] / te
+    u_d = ph / (te * wvl)
+    umin, umax, g2min, g2max = float(u.min()), float(u.max()), float(g2.min()), float(g2.max())
+    out = {"u_d": u_d, "g2_d": g2_d, "bounds": (umin, umax, g2min, g2max), "ln4u": math.log(4 / u_d), "interp": 0.0,
+           "range": (tuple(obj.u_range), tuple(obj.gamma2_range))}
+    if z != 0 and not (u_d >= umax or g2_d >= g2max) and not (u_d < umin or g2_d < g2min):
+        twin = Interpolator2DArray(np.log10(u), np.log10(g2), tab, 'cubic', 'none', 0, 0)
+        try:
+            out["interp"] = float(twin(math.log10(u_d), math.log10(g2_d)))
+        except ValueError as exc:
+            out["twin_error"] = str(exc)
+    try:
+        out["value"] = float(obj(z, te, wvl) if case["entry"] == "call" else obj.evaluate(z, te, wvl))
+    except ValueError as exc:
+        out["error"] = str(exc)
+    return out
+
+
+def second_order_probes():
+    """call sites of the anchored files that the emission path does not reach; returns (number of probes, failures)"""
+    from cherab.core.atomic.gaunt import FreeFreeGauntFactor
+    fails, n = [], 0
+
+    def expect(name, fn, exc=None, check=None):
+        nonlocal n
+        n += 1
+        try:
+            r = fn()
+        except Exception as e:          # noqa: the kind of the exception IS the observation
+            if exc is None or not isinstance(e, exc):
+                fails.append({"claim": name, "observed": "%s: %s" % (type(e).__name__, str(e)[:120])})
+            return
+        if exc is not None:
+            fails.append({"claim": name, "observed": "no exception, returned %r" % (r,)})
+        elif check is not None and not check(r):
+            fails.append({"claim": name, "observed": repr(r)[:200]})
+
+    log = new_log()
+    line = Line(carbon, 3, (3, 2))
+    spec = lambda: Spectrum(400.0, 600.0, 3)
+    for cls in (ExcitationLine, RecombinationLine, ThermalCXLine):
+        expect("%s: emission without a plasma is a RuntimeError" % cls.__name__, lambda: cls(line).emission(point(0), DIRECTION, spec()), RuntimeError)
+        expect("%s: emission without atomic data is a RuntimeError" % cls.__name__,
+               lambda: cls(line, plasma=SeqPlasma([{"ne": 1.0, "te": 1.0, "comp": []}]).pl).emission(point(0), DIRECTION, spec()), RuntimeError)
+        expect("%s: a line shape that is not a LineShapeModel is a TypeError" % cls.__name__, lambda: cls(line, lineshape=int), TypeError)
+        expect("%s: default line shape is accepted" % cls.__name__, lambda: cls(line, lineshape=None) is not None, None, bool)
+        expect("%s: repr names element, charge and transition" % cls.__name__, lambda: repr(cls(line)), None,
+               lambda r: "carbon" in r and "3" in r and "(3, 2)" in r)
+    expect("TotalRadiatedPower: emission without a plasma is a RuntimeError",
+           lambda: TotalRadiatedPower(carbon, 3).emission(point(0), DIRECTION, spec()), RuntimeError)
+    expect("TotalRadiatedPower: emission without atomic data is a RuntimeError",
+           lambda: TotalRadiatedPower(carbon, 3, plasma=SeqPlasma([{"ne": 1.0, "te": 1.0, "comp": []}]).pl).emission(point(0), DIRECTION, spec()),
+           RuntimeError)
+    for ch in (-1, 6, 7):
+        expect("TotalRadiatedPower: charge %d of carbon is a ValueError" % ch, lambda: TotalRadiatedPower(carbon, ch), ValueError)
+    expect("Bremsstrahlung: emission without a plasma is a RuntimeError", lambda: Bremsstrahlung().emission(point(0), DIRECTION, spec()), RuntimeError)
+    expect("Bremsstrahlung: no Gaunt factor and no atomic data is a RuntimeError",
+           lambda: Bremsstrahlung(plasma=SeqPlasma([{"ne": 1.0, "te": 1.0, "comp": []}]).pl).emission(point(0), DIRECTION, spec()), RuntimeError)
+    expect("Bremsstrahlung: integrator = None is a TypeError", lambda: setattr(Bremsstrahlung(), "integrator", None), TypeError)
+    gs = GauntStub((1.0, 0.0, 0.0, 0.0), log)
+    b = Bremsstrahlung(gaunt_factor=gs)
+    expect("Bremsstrahlung: gaunt_factor getter returns what was set", lambda: b.gaunt_factor is gs, None, bool)
+    integ = GaussianQuadrature(relative_tolerance=1e-7)
+    b.integrator = integ
+    expect("Bremsstrahlung: integrator getter returns what was set", lambda: b.integrator is integ, None, bool)
+    expect("Bremsstrahlung: default integrator is a GaussianQuadrature", lambda: isinstance(Bremsstrahlung().integrator, GaussianQuadrature), None, bool)
+    b.gaunt_factor = None
+    expect("Bremsstrahlung: gaunt_factor reset to None reads back None", lambda: b.gaunt_factor is None, None, bool)
+    for ne, te in ((0.0, 1.0), (-0.0, 1.0), (-1.0, 1.0), (1.0, 0.0), (1.0, -0.0), (1.0, -5e-324)):
+        expect("BremsFunction(ne=%r, te=%r) is a ValueError" % (ne, te), lambda: BremsFunction(gs, [1.0], [1.0], ne, te), ValueError)
+    for ne, te in ((5e-324, 1.0), (1.0, 5e-324), (2.0 ** 60, 2.0 ** 60)):
+        expect("BremsFunction(ne=%r, te=%r) is accepted" % (ne, te), lambda: BremsFunction(gs, [1.0], [1.0], ne, te)(500.0), None,
+               lambda r: r >= 0.0)
+    expect("FreeFreeGauntFactor.evaluate of the base class is a NotImplementedError", lambda: FreeFreeGauntFactor().evaluate(1, 1, 1), NotImplementedError)
+    expect("FreeFreeGauntFactor.__call__ of the base class is a NotImplementedError", lambda: FreeFreeGauntFactor()(1, 1, 1), NotImplementedError)
+    expect("FreeFreeGauntFactor.__call__ delegates to evaluate", lambda: GauntStub((0.5, 0.25, 0.0, 0.0), log)(2.0, 1.0, 1.0), None, lambda r: r == 1.0)
+    expect("RadiationFunction default step", lambda: RadiationFunction(1.0).integrator.step, None, lambda r: abs(r - 0.1) < 1e-6)
+    expect("RadiationFunction explicit step", lambda: RadiationFunction(1.0, step=0.25).integrator.step, None, lambda r: r == 0.25)
+    return n, fails
 
 
 # ---------------------------------------------------------------------------------------------------
